@@ -6,7 +6,7 @@ from .. import land, seq
 
 LEVEL = 'exploration'
 ENGINE = 'SEQ'
-TECHNIQUE = 'bounded exhaustive enumeration of operation histories (enqueue variants, next_result, close, wait, call, drain, worker dying on its own observed / unobserved / without waiting) over default-argument configurations and result sizes (400 kB results read slowly by the parent), executed on real persistent thread/process/remote workers and compared step by step with a list model'
+TECHNIQUE = 'bounded exhaustive enumeration of operation histories (enqueue variants, next_result, non-blocking / timed / zero-timeout polls, close, wait, call, drain, worker dying on its own observed / unobserved / without waiting) over default-argument configurations and result sizes (400 kB results read slowly by the parent), executed on real persistent thread/process/remote workers and compared step by step with a list model'
 LEVEL_TEXT = ('every history up to the full depth over the operation alphabet, then extended on new abstract states (queue length, delivered, closed, dead) up to the maximum depth, x default-argument configurations x the three persistent classes; oracle = reference list model with merge(defaults, enqueue) on pristine defaults; WorkerClosedError after close/death; result == number of enqueues == number of delivered results; the stream ends exactly once')
 LEVEL_NOTE = 'argument values are small JSON-like values; a mutating target checks that defaults are pristine for every call; operations that would block for ever by specification are disabled by the model'
 
